@@ -86,3 +86,30 @@ Proof.
   unfold launch_cmdline. destruct (split_model_total cmd) as [ws Hws]. rewrite Hws. cbn [bind].
   rewrite launch_argv0_correct. eexists. reflexivity.
 Qed.
+
+(* ---- round 5: the start() entry points (their own copies of the preparation code) ---- *)
+Lemma start_argv_correct program argv env :
+  start_argv program (length argv) (map Some argv) env = Ok (launch_ref_argv program argv env).
+Proof. exact (launch_argv_correct program argv env). Qed.
+
+Lemma start_argv0_correct program argv env :
+  start_argv program (S (length argv)) (map Some argv ++ [None]) env = Ok (launch_ref_argv0 program argv env).
+Proof. exact (launch_argv0_correct program argv env). Qed.
+
+Lemma start_cmdline_correct cmd env : nz cmd ->
+  start_cmdline cmd env = Ok (launch_ref_cmdline cmd env).
+Proof. exact (launch_cmdline_correct cmd env). Qed.
+
+Lemma start_cmdline_total cmd env : exists x, start_cmdline cmd env = Ok x.
+Proof. exact (launch_cmdline_total cmd env). Qed.
+
+(* a command line of the property's class: the child gets exactly the words the property names, the first one is
+   the program - through either entry point *)
+Lemma cmdline_class_exact cmd env ws : nz cmd -> split_seen cmd = Some ws ->
+  let ws' := match ws with [] => [[]] | _ => ws end in
+  launch_cmdline cmd env = Ok {| x_program := hd [] ws'; x_args := ws'; x_env := env_ref env |} /\
+  start_cmdline cmd env = Ok {| x_program := hd [] ws'; x_args := ws'; x_env := env_ref env |}.
+Proof.
+  intros Hz Hs. unfold split_seen in Hs. destruct (in_class cmd); [|discriminate]. inversion Hs; subst ws.
+  split; [rewrite (launch_cmdline_correct cmd env Hz)|rewrite (start_cmdline_correct cmd env Hz)]; reflexivity.
+Qed.
